@@ -3,7 +3,7 @@
 use bemodel::{Model, Point3, Vector3};
 use serde_json::{json, Value};
 
-use crate::convert::{convert_bdl_fast, convert_ctehexml_fast, project_texts, real_project_files, Conv};
+use crate::convert::{project_texts, real_project_files, Conv};
 use crate::core::{Case, Obs, Property, Tier};
 use crate::gen::bdl::{gen_building, print_blocks, BuildCfg, Layout};
 use crate::oracle::bdlgeom::{expected, Expected};
@@ -16,11 +16,7 @@ use crate::rng::Rng;
 pub struct C03;
 
 fn convert(is_xml: bool, text: &str) -> Conv {
-    if is_xml {
-        convert_ctehexml_fast(text)
-    } else {
-        convert_bdl_fast(text)
-    }
+    crate::convert::convert_text_routed(is_xml, text)
 }
 
 fn gpoints(g: &bemodel::WallGeom) -> Option<Vec<V3>> {
